@@ -10,9 +10,9 @@ import (
 // H14c — one completion (the callback buildDoneFunc returns) from an arbitrary
 // connection state, at an arbitrary time after the pick.
 func Verif_C14_done() {
-	cs := verifCase(6)
+	cs := verifCase(3 * verifParam("statsCases"))
 	outcome := cs % 3 // 0 no error, 1 acceptable error, 2 unacceptable error
-	statsDue := cs >= 3
+	statsDue := cs >= 3 // (thorough tier) the once-a-minute statistics branch runs too
 	c, other := verifConn(0), verifConn(1)
 	verifLoads = map[*subConn]int64{}
 	p := &p2cPicker{conns: []*subConn{c, other}, stamp: syncx.NewAtomicDuration()}
@@ -66,9 +66,17 @@ func Verif_C14_done() {
 		"Done: the other connections are untouched")
 
 	// success score
-	verifAssert(c.success <= initSuccess, "success score stays within [0,1000]")
+	verifAssert(c.success <= verifMaxScore, "success score stays within [0,1000]")
 	if outcome == 2 {
 		verifAssert(c.success <= oSuccess, "unacceptable completion: success score moves towards 0")
+		if td > 0 {
+			// environment fact: exp(x) < 1 for x <= -1e-10 (td >= 1ns). Then the score
+			// strictly decreases, so a backend whose calls all fail is unhealthy
+			// (score <= 500) after at most 500 completions, whatever their spacing.
+			verifAssume(w < 1)
+			verifAssert(verifOr(oSuccess == 0, c.success < oSuccess), "unacceptable completion after a positive delay: success score strictly decreases (bounded time to unhealthy)")
+			verifReach("strict-decrease")
+		}
 		verifReach("unacceptable")
 	} else {
 		// weakly: the uint64 truncation (and one rounding) can hold it in place
